@@ -193,7 +193,18 @@ func (vc *VC) verifyTop(fn *ssa.Function, c *Contract) {
 		vc.obligeAndAssume(exit, "post.panics_when", not(n.evalBool(c.PanicsIf.Expr)), "returns normally only when not ("+c.PanicsIf.Src+")", fn.Pos())
 	}
 	for _, e := range c.Ensures {
-		vc.oblige(exit, "post."+e.Name, scp.evalBool(e.Expr), "postcondition: "+e.Src, fn.Pos(), e.Top)
+		g := scp.evalBool(e.Expr)
+		if parts := conjuncts(g); len(parts) > 3 && len(g) > 1500 {
+			for k, part := range parts {
+				o := vc.oblige(exit, fmt.Sprintf("post.%s.c%d", e.Name, k), part, fmt.Sprintf("postcondition (conjunct %d): %s", k, e.Src), fn.Pos(), e.Top)
+				if o != nil {
+					o.Name = fmt.Sprintf("%s#post.%s.c%d", vc.fnName, e.Name, k)
+				}
+				vc.assumeUnder(exit.reach, part)
+			}
+			continue
+		}
+		vc.oblige(exit, "post."+e.Name, g, "postcondition: "+e.Src, fn.Pos(), e.Top)
 	}
 	// result type invariants
 	checkInv := func(v Val) {
